@@ -158,6 +158,18 @@ def _count_cond(r, o):
     return None
 
 
+def _const_int(n):
+    if isinstance(n, int):
+        return n
+    try:
+        n = z3.simplify(n)
+        if z3.is_int_value(n):
+            return n.as_long()
+    except Exception:
+        pass
+    return None
+
+
 def red_axioms(ctx: Ctx, r: Red, ground, cands):
     """Instances of library lemmas (tvc/lemmas.py proves the schemas by induction).
 
@@ -181,6 +193,20 @@ def red_axioms(ctx: Ctx, r: Red, ground, cands):
 
     def forall_k(fn, instances=True):
         """fn(kk) -> formula; quantified over the bound indices + explicit instances."""
+        cl = [_const_int(n_) for n_ in lens]
+        if all(c is not None for c in cl):
+            tot = 1
+            for c in cl:
+                tot *= max(c, 0)
+            if tot <= 64:
+                # concrete small length: the finite conjunction replaces the quantifier (keeps concrete-dimension queries decidable)
+                import itertools as _it
+
+                insts_ = [fn([z3.IntVal(v) for v in kk]) for kk in _it.product(*[range(c) for c in cl])]
+                insts_ = [f for f in insts_ if not (isinstance(f, bool) and f)]
+                if insts_:
+                    ax.append(_q(qo, AND(*insts_)) if qo else AND(*insts_))
+                return
         ax.append(_q(qo + ks, fn(ks)))
         if instances and ground is not None and len(ks) == 1:
             n = zint(lens[0])
@@ -363,8 +389,10 @@ def build_query(ctx: Ctx, ob, extra_axioms=()):
     return fs + list(extra_axioms) + ax, goal
 
 
-def solve(ctx: Ctx, ob, timeout_ms=None, want_model=False, extra_axioms=(), use_cvc5=True, mbqi=True, cvc5_s=None):
-    """z3 (E-matching only first, then with MBQI), then cvc5 on z3's unknowns."""
+def solve(ctx: Ctx, ob, timeout_ms=None, want_model=False, extra_axioms=(), use_cvc5=True, mbqi=True, cvc5_s=None, seed=None):
+    """z3 (E-matching only first, then with MBQI), then cvc5 on z3's unknowns.
+    seed: portfolio variant (z3's search on quantified non-linear queries is sensitive to its random seed; run_unit
+    tries several seeds in parallel on what the default configuration leaves open)."""
     t0 = time.time()
     with ctx:
         hyps, goal = build_query(ctx, ob, extra_axioms)
@@ -376,6 +404,11 @@ def solve(ctx: Ctx, ob, timeout_ms=None, want_model=False, extra_axioms=(), use_
         s.set("timeout", cfg[2])
         if not cfg[1]:
             s.set("smt.mbqi", False)
+        if seed:
+            s.set("smt.random_seed", int(seed))
+            s.set("sat.random_seed", int(seed))
+            if seed % 2 == 0:
+                s.set("smt.arith.solver", 2)
         for h in hyps:
             s.add(h)
         s.add(z3.Not(goal))
@@ -383,7 +416,7 @@ def solve(ctx: Ctx, ob, timeout_ms=None, want_model=False, extra_axioms=(), use_
         last = s
         dt = time.time() - t0
         if r == z3.unsat:
-            return Result("proved", "z3", dt)
+            return Result("proved", "z3" if not seed else f"z3[seed={seed}]", dt)
         if r == z3.sat and cfg[1]:
             return Result("refuted", "z3", dt, model=s.model())
         if r == z3.sat and not _has_quantifiers(hyps + [goal]):
